@@ -129,6 +129,7 @@ theorem readBack_written (table : List ASpec) (hn : (table.map (·.name)).Nodup)
         rw [hr] at hrule
         have : (x == "") = false := by simpa using hrule
         simp [this, hcan]
+      | noneDflt d => simp [hcan]
 
 theorem mapM_some {α β} (g : α → Option β) (h : α → β) : ∀ (l : List α), (∀ a ∈ l, g a = some (h a)) →
     l.mapM g = some (l.map h)
@@ -277,7 +278,7 @@ def GuardsOk (table : List ASpec) : Prop :=
 
 /-- defaults are values of their kind, canonically written -/
 def DefaultsCanon (table : List ASpec) : Prop :=
-  ∀ s ∈ table, ∀ d, (s.rule = .dflt d ∨ s.rule = .always d) → canonVal s.kind d = some d
+  ∀ s ∈ table, ∀ d, (s.rule = .dflt d ∨ s.rule = .always d ∨ s.rule = .noneDflt d) → canonVal s.kind d = some d
 
 theorem held_canonical (table : List ASpec) (hn : (table.map (·.name)).Nodup) (hd : DefaultsCanon table)
     (a : Attrs) (r : Rec) (h : decode table a = some r) :
@@ -306,6 +307,7 @@ theorem held_canonical (table : List ASpec) (hn : (table.map (·.name)).Nodup) (
     | opt => rw [hr] at h1; simp at h1
     | dfltNone d => rw [hr] at h1; simp at h1
     | falsyOpt => rw [hr] at h1; simp at h1
+    | noneDflt d => rw [hr] at h1; simp at h1
     | dflt d =>
       rw [hr] at h1
       simp only [Option.some.injEq] at h1
@@ -315,7 +317,7 @@ theorem held_canonical (table : List ASpec) (hn : (table.map (·.name)).Nodup) (
       rw [hr] at h1
       simp only [Option.some.injEq] at h1
       subst h1
-      exact hd s hs _ (Or.inr hr)
+      exact hd s hs _ (Or.inr (Or.inl hr))
 
 
 /-- what is held for an attribute whose class always has a value for it -/
@@ -437,6 +439,27 @@ theorem reread (table : List ASpec) (hn : (table.map (·.name)).Nodup) (hg : Gua
         rw [hgo']
         simp_all
       · rintro ⟨d', hd'⟩ _; cases hd'
+    | noneDflt d =>
+      have hdc : canonVal s.kind d = some d := hd s hs d (Or.inr (Or.inr hr))
+      cases hv : lookupR r s.name with
+      | none =>
+        have hwx : written r s = some d := by unfold written; simp [hgo, hr, hv]
+        rw [hwx]
+        refine ⟨some d, by simp [hdc], ?_, ?_⟩
+        · intro r' hv' hgo'
+          unfold written
+          rw [hgo']
+          simp_all
+        · rintro ⟨d', hd'⟩ _; cases hd'
+      | some x =>
+        have hwx : written r s = some x := by unfold written; simp [hgo, hr, hv]
+        rw [hwx]
+        refine ⟨some x, by simp [hcan x hv], ?_, ?_⟩
+        · intro r' hv' hgo'
+          unfold written
+          rw [hgo']
+          simp_all
+        · rintro ⟨d', hd'⟩ _; cases hd'
     | dfltNone d =>
       cases hv : lookupR r s.name with
       | none =>
@@ -602,10 +625,11 @@ theorem defaultsCanon_of_check (tb : List ASpec)
     (h : (tb.all fun s => match s.rule with
       | .dflt d => canonVal s.kind d == some d
       | .always d => canonVal s.kind d == some d
+      | .noneDflt d => canonVal s.kind d == some d
       | _ => true) = true) : DefaultsCanon tb := by
   intro s hs d hr
   have := List.all_eq_true.mp h s hs
-  rcases hr with hr | hr <;> rw [hr] at this <;> simpa using this
+  rcases hr with hr | hr | hr <;> rw [hr] at this <;> simpa using this
 
 theorem tables_defaults_canon :
     DefaultsCanon objectTypeTable ∧ DefaultsCanon conceptTable ∧ DefaultsCanon sourceTable ∧ DefaultsCanon eventTypeTable ∧
@@ -617,7 +641,7 @@ theorem tables_defaults_canon :
   intro t ht
   apply defaultsCanon_of_check
   simp only [List.mem_cons, List.mem_nil_iff, or_false] at ht
-  rcases ht with rfl | rfl | rfl | rfl | rfl | rfl | rfl <;> decide
+  rcases ht with rfl | rfl | rfl | rfl | rfl | rfl | rfl <;> decide +kernel
 
 /-- the rule tables of the SDK's element classes have unique attribute names -/
 theorem tables_have_unique_names :
@@ -628,6 +652,31 @@ theorem tables_have_unique_names :
       ((relationTable t).map (·.name)).Nodup) := by
   decide
 
+
+/-- a relation created without a confidence (`None` in memory, the default of `EventType.create_relation`)
+is written with the default confidence 10, and reading that back holds 10: the two in-memory forms
+stand for one definition (which is why relations are compared by their effective confidence, /repo ccfb93c) -/
+theorem relation_confidence_default (t : String) (ht : t ∈ ["inter", "intra", "other"]) (r : Rec)
+    (h : lookupR r "confidence" = none) :
+    lookupA (encode (relationTable t) r) "confidence" = some "10" ∧
+    readBack (encode (relationTable t) r) ⟨"confidence", .nat, .noneDflt "10", none⟩ = some (some "10") := by
+  have hn : ((relationTable t).map (·.name)).Nodup :=
+    tables_have_unique_names.2.2.2.2.2.2.2.2 t (by
+      simp only [List.mem_cons, List.mem_nil_iff, or_false] at ht ⊢
+      rcases ht with rfl | rfl | rfl <;> simp)
+  have hs : (⟨"confidence", .nat, .noneDflt "10", none⟩ : ASpec) ∈ relationTable t := by
+    simp only [List.mem_cons, List.mem_nil_iff, or_false] at ht
+    rcases ht with rfl | rfl | rfl <;> simp [relationTable]
+  have hw := written_value_is_read_back (relationTable t) hn r _ hs
+  have hwr : written r ⟨"confidence", .nat, .noneDflt "10", none⟩ = some "10" := by
+    unfold written guardOpen
+    simp [h]
+  rw [hwr] at hw
+  refine ⟨hw, ?_⟩
+  unfold readBack
+  simp only at hw
+  rw [hw]
+  decide +kernel
 
 /-- every rule table of the SDK is well-formed in the three ways `cycle_idempotent` needs -/
 theorem tableOf_ok (tag : String) (t : List ASpec) (h : tableOf tag = some t) :
